@@ -23,7 +23,7 @@ LEVEL_NOTE = (
 PROP = "C05"
 TARGETS = ["Tx3Proofs.C05", "Tx3Proofs.C05Fee"]
 THEOREMS = ["Tx3.resolveLoop_fixed_point", "Tx3.C05_fixed_point", "Tx3.resolveLoop_stable", "Tx3.C05_stable",
-            "Tx3.C05_fee_written", "Tx3.C05_fee_chain"]
+            "Tx3.C05_fee_written", "Tx3.C05_fee_chain", "Tx3.C05_fee_estimate_exact"]
 RULE = (
     "cases = the apply-fees probe (the real apply_fees on every template shape and on hand-built input / collateral "
     "queries that hold the fee, four fees each); (template, pparams, store, rounds): 5 template shapes using `fees` in outputs and/or min_amount, with and "
